@@ -75,7 +75,14 @@ def run_auto(case, evaluator=None):
     try:
         with watchdog(60):
             # the focal vertex is given as an EQUAL id, not as the graph's own node object (ids above 256 are not interned)
-            val = ae.automated_equation(motif_graph(case["E"], case.get("name", "motif"), us), Poly.var("p"), int(str(case["root"])))
+            H = motif_graph(case["E"], case.get("name", "motif"), us)
+            if case.get("pre_abort") is not None:
+                # crash point: the same call (same evaluator, same graph object) was abandoned part-way before; the caller asks again
+                from ..crash import abort_frac
+                tr["pre_abort_outcome"] = abort_frac(
+                    lambda: AutomatedEquation().automated_equation(motif_graph(case["E"], case.get("name", "motif"), us), Poly.var("p"), int(str(case["root"]))),
+                    lambda: ae.automated_equation(H, Poly.var("p"), int(str(case["root"]))), case["pre_abort"])
+            val = ae.automated_equation(H, Poly.var("p"), int(str(case["root"])))
         if tr["half_u"]:
             val = val * (2 ** len(tr["half_u"]))
         tr["terms"], tr["malformed"] = poly_terms(val)
